@@ -141,6 +141,29 @@ pub fn dcx(input: &[u8]) -> String {
     match decompressor(algo).decompress(Bytes::from(unhx(w))) { Ok(b) => hx(&b), Err(_) => "!".into() }
 }
 
+/// child side of a case that is run in the guarded child process (its own server and certificates), so that a
+/// subscriber that brings the whole process down is an observation: `<codec> <algo> <frames>` -> implementation line
+pub fn child_case(input: &[u8]) -> String {
+    let t = String::from_utf8_lossy(input).to_string();
+    let t: Vec<&str> = t.split(' ').collect();
+    let frames = expand(t[2], t[1]);
+    let fr: Vec<&str> = frames.iter().map(|s| s.as_str()).collect();
+    let rt = runtime();
+    let certs = match Certs::generate(&scratch_dir("subchild")) { Ok(c) => c, Err(e) => return format!("ERROR certs {e}") };
+    let addr = match rt.block_on(async { start_server(&certs) }) { Ok(a) => a, Err(e) => return format!("ERROR server {e}") };
+    let res = rt.block_on(async { tokio::time::timeout(Duration::from_secs(40), run_case(addr, &certs, t[0], t[1], &fr)).await });
+    let _ = std::fs::remove_dir_all(&certs.dir);
+    match res { Err(_) => "TIMEOUT".into(), Ok(Err(e)) => format!("ERROR {}", format!("{e:?}").replace('\n', " ").chars().take(160).collect::<String>()), Ok(Ok(l)) => l }
+}
+
+/// `<n>*<frame>` stands for n copies of the frame
+fn expand(frames: &str, algo: &str) -> Vec<String> {
+    frames.split(';').flat_map(|f| match f.split_once('*') {
+        Some((n, g)) if n.chars().all(|c| c.is_ascii_digit()) && !n.is_empty() => vec![annotate(g, algo); n.parse::<usize>().unwrap_or(1)],
+        _ => vec![annotate(f, algo)],
+    }).collect()
+}
+
 pub fn run(cfg: &Cfg) {
     let mut out = Out::new(&cfg.out, "e2esub");
     let rt = runtime();
@@ -163,6 +186,9 @@ pub fn run(cfg: &Cfg) {
             "ppraw bytes - M=61;OK;M=62".to_string(),
             "ppraw bytes - E;M=62".to_string(),
             "ppraw bincode - M=07000000+0100000000000000+61;M=0700;M=07000000+~8*ff".to_string(),
+            // long runs of frames that yield nothing (empty batches), already buffered when the subscriber first polls
+            "ppraw bytes - 30000*B=~8*00;M=61".to_string(),
+            "ppraw string - 2000*B=~8*00;B=0000000000000001+0000000000000001+62;5000*B=~8*00;M=61".to_string(),
         ] { cases.push(c); }
         let mut r = Rng::new(cfg.seed, "e2esub");
         let algos = ["-", "-", "gzip:-", "zlib:-", "zstd:-", "lz4:-", "brg:-"];
@@ -174,14 +200,31 @@ pub fn run(cfg: &Cfg) {
     }
     for c in &cases {
         let t: Vec<&str> = c.split(' ').collect();
-        let frames: Vec<String> = t[3].split(';').map(|f| annotate(f, t[2])).collect();
+        let frames: Vec<String> = expand(t[3], t[2]);
         let fr: Vec<&str> = frames.iter().map(|s| s.as_str()).collect();
-        let line = format!("ppraw {} {} {}", t[1], t[2], frames.join(";"));
-        let res = rt.block_on(async { tokio::time::timeout(Duration::from_secs(30), run_case(addr, &certs, t[1], t[2], &fr)).await });
+        let line = if c.contains('*') && t[2] == "-" { c.clone() } else { format!("ppraw {} {} {}", t[1], t[2], frames.join(";")) };
+        // long runs of frames go through the guarded child: a subscriber that overflows its stack aborts the process
+        let big = c.contains('*');
+        let res = if big {
+            match crate::childrun::guarded_timeout("ppraw1", format!("{} {} {}", t[1], t[2], t[3]).as_bytes(), Duration::from_secs(90)) {
+                crate::childrun::Outcome::Value(v) => Ok(Ok(v)),
+                crate::childrun::Outcome::Panic(p) => Ok(Ok(format!("PANIC {p}"))),
+                crate::childrun::Outcome::Abort(st) => Ok(Ok(format!("ABORT {st}"))),
+                crate::childrun::Outcome::Hang => Ok(Ok("TIMEOUT".to_string())),
+            }
+        } else {
+            rt.block_on(async { tokio::time::timeout(Duration::from_secs(30), run_case(addr, &certs, t[1], t[2], &fr)).await })
+        };
         let (imp, mon) = match res {
             Err(_) => ("TIMEOUT".to_string(), Err("C06: the subscriber did not come to rest within 30 s".to_string())),
             Ok(Err(e)) => (format!("ERROR {}", format!("{e:?}").replace('\n', " ").chars().take(160).collect::<String>()), Err(format!("{e}"))),
-            Ok(Ok(l)) => { let m = if l.contains("PANIC") { Err("C06: the subscriber panicked on what a publisher sent".to_string()) } else { Ok(()) }; (l, m) }
+            Ok(Ok(l)) => {
+                let m = if l.contains("PANIC") { Err("C06: the subscriber panicked on what a publisher sent".to_string()) }
+                    else if l.starts_with("ABORT") { Err("C06: the consuming process was aborted (stack overflow / allocation failure) by frames a publisher sent".to_string()) }
+                    else if l.starts_with("TIMEOUT") { Err("C06: the subscriber did not come to rest".to_string()) }
+                    else { Ok(()) };
+                (l, m)
+            }
         };
         out.stat(&format!("codec_{}", t[1]));
         out.stat(&format!("algo_{}", t[2].split(':').next().unwrap()));
